@@ -18,3 +18,23 @@ package lossy
 //@ func DecodeAlpha
 //@   property C16 C05
 //@   ensures result1 == nil ==> result0 != nil
+//
+// ---- C04 / C11: per-segment loop-filter strengths ----
+//
+// Every one of the 4x2 slots is rewritten from the current frame's headers
+// (so nothing of an earlier frame on a pooled decoder survives, C11), with the
+// values RFC 6386 defines (C04).
+//@ pure func lvl(dec *Decoder, s int, i int) int = specFilterLevel(dec.segHdr.UseSegment, dec.segHdr.AbsoluteDelta, dec.segHdr.FilterStrength[s], dec.filterHdr.Level, dec.filterHdr.UseLFDelta, dec.filterHdr.RefLFDelta[0], dec.filterHdr.ModeLFDelta[0], i != 0)
+//
+//@ func (dec *Decoder) precomputeFilterStrengths
+//@   property C04 C11 C05
+//@   requires dec != nil && 0 <= dec.filterHdr.Sharpness && dec.filterHdr.Sharpness <= 7
+//@   modifies dec.fstrengths
+//@   ensures dec.filterType > 0 ==> forall s int in 0..4, i int in 0..2 :: lvl(dec, s, i) > 0 ==> \
+//@       dec.fstrengths[s][i].FILevel == uint8(specInteriorLimit(lvl(dec, s, i), dec.filterHdr.Sharpness))
+//@   ensures dec.filterType > 0 ==> forall s int in 0..4, i int in 0..2 :: lvl(dec, s, i) > 0 ==> \
+//@       dec.fstrengths[s][i].FLimit == uint8(2*lvl(dec, s, i) + specInteriorLimit(lvl(dec, s, i), dec.filterHdr.Sharpness))
+//@   ensures dec.filterType > 0 ==> forall s int in 0..4, i int in 0..2 :: lvl(dec, s, i) > 0 ==> \
+//@       dec.fstrengths[s][i].HevThresh == specHevThreshold(lvl(dec, s, i))
+//@   ensures dec.filterType > 0 ==> forall s int in 0..4, i int in 0..2 :: lvl(dec, s, i) == 0 ==> dec.fstrengths[s][i].FLimit == 0
+//@   ensures dec.filterType > 0 ==> forall s int in 0..4, i int in 0..2 :: (dec.fstrengths[s][i].FInner <==> i != 0)
